@@ -58,97 +58,236 @@ func c06Forward(c *Ctx) {
 	// a. constant buffer size fitting 16 bits
 	k, okK := fixedLen(buf)
 	c.Check(okK && k > 0 && k <= 0xFFFF, rule, "forward buffer", read.Pos(), fmt.Sprintf("read buffer has constant length %d <= 65535 (uint16(n) cannot truncate; DATA packet <= %d bytes)", k, k+10), fmt.Sprintf("the read buffer's length (%d, constant=%v) does not fit the 16-bit payload length: a full read is announced with a truncated length", k, okK))
-	// c/d/e. the packet handed to tunnel.Write is createPacket(PKT_TYPE_DATA, uint16(count) ++ payload),
-	// assembled in forward itself or in a helper that is given buf[:n] (then count = len(parameter))
-	var tw *ssa.Call
-	for _, ci := range callsTo(fn, "(*"+protoPkg+".Tunnel).Write") {
-		if tw != nil {
-			c.Bad(rule, "forward assembly", ci.Pos(), "more than one tunnel write in the relay loop")
-		}
-		tw = ci.(*ssa.Call)
-	}
-	if tw == nil {
-		c.Bad(rule, "forward assembly", fn.Pos(), "length prefix / payload write / Bytes / tunnel.Write not all present")
-		return
-	}
+	// c/d/e. the packet handed to Tunnel.Write is createPacket(PKT_TYPE_DATA, uint16(count) ++ payload).
+	// The chunk buf[:n] may travel through helpers (forward -> tunnel.writeData(chunk) ->
+	// createPacket(DATA, dataPayload(chunk))); inside a helper the chunk is its parameter and the
+	// count is len(parameter).
 	isBufN := func(v ssa.Value) bool {
 		sl, ok := v.(*ssa.Slice)
 		return ok && sl.X == buf && sl.Low == nil && sl.High == n && sl.Max == nil
 	}
-	asmFn := fn
-	payloadIs := isBufN
-	countIs := func(v ssa.Value) bool { return v == n }
-	var pk *ssa.Call
-	helperArgOK := true
-	if call, ok := strip(arg(tw, 0)).(*ssa.Call); ok {
-		pk = call
-		if h := call.Call.StaticCallee(); h != nil && calleeName(call) != protoPkg+".createPacket" && IsFirstParty(h) && h.Blocks != nil && len(h.Params) == 1 && len(call.Call.Args) == 1 {
-			// helper mode
-			asmFn = h
-			hp := h.Params[0]
-			payloadIs = func(v ssa.Value) bool { return v == ssa.Value(hp) }
-			countIs = func(v ssa.Value) bool {
+	dataT := c.ConstInt("cmd/rdpgw/protocol", "PKT_TYPE_DATA")
+	type asmResult struct {
+		send     ssa.Instruction // the instruction of forward that sends the packet
+		prefixOK bool
+		payOK    bool
+		pktOK    bool
+		fresh    bool // the assembly storage is fresh for every packet
+		reset    *ssa.Call
+		bytes    *ssa.Call
+		tw       *ssa.Call
+		buffer   ssa.Value
+		where    ssa.Instruction
+	}
+	// bodyOK: body (the createPacket data argument, in function f) is uint16(count) ++ chunk
+	var bodyOK func(f *ssa.Function, body ssa.Value, chunkIs, countIs func(ssa.Value) bool, depth int, r *asmResult)
+	bodyOK = func(f *ssa.Function, body ssa.Value, chunkIs, countIs func(ssa.Value) bool, depth int, r *asmResult) {
+		u16of := func(v ssa.Value) bool {
+			cv, ok := v.(*ssa.Convert)
+			if !ok || !countIs(cv.X) {
+				return false
+			}
+			bt, ok := cv.Type().Underlying().(*types.Basic)
+			return ok && bt.Kind() == types.Uint16
+		}
+		switch x := strip(body).(type) {
+		case *ssa.Call:
+			switch {
+			case calleeName(x) == "(*bytes.Buffer).Bytes":
+				// buffer style, in f
+				b1 := recvOf(x)
+				r.bytes, r.buffer = x, b1
+				var prefix, payload *ssa.Call
+				for _, ci := range callsIn(f) {
+					call, ok := ci.(*ssa.Call)
+					if !ok {
+						continue
+					}
+					switch calleeName(call) {
+					case "encoding/binary.Write":
+						if strip(arg(call, 0)) == b1 {
+							prefix = call
+						}
+					case "(*bytes.Buffer).Write":
+						if recvOf(call) == b1 {
+							payload = call
+						}
+					case "(*bytes.Buffer).Reset":
+						if recvOf(call) == b1 {
+							r.reset = call
+						}
+					}
+				}
+				if prefix != nil {
+					if mi, ok := arg(prefix, 2).(*ssa.MakeInterface); ok && u16of(mi.X) && isLittleEndian(arg(prefix, 1)) {
+						r.prefixOK = true
+					}
+				}
+				if payload != nil && chunkIs(arg(payload, 0)) {
+					r.payOK = true
+				}
+				if prefix != nil && payload != nil && !(dominatesInstr(prefix, payload) && dominatesInstr(payload, x)) {
+					r.prefixOK = false
+				}
+				if al, ok := b1.(*ssa.Alloc); ok && (inCycle(al.Block()) || f != fn && !inCycle(al.Block())) {
+					r.fresh = true
+				}
+			default:
+				// a pure helper that builds the body from the chunk
+				h := x.Call.StaticCallee()
+				if h == nil || !IsFirstParty(h) || h.Blocks == nil || depth > 2 || len(x.Call.Args) != len(h.Params) {
+					break
+				}
+				for j, a := range x.Call.Args {
+					if chunkIs(a) {
+						hp := h.Params[j]
+						hChunk := func(v ssa.Value) bool { return v == ssa.Value(hp) }
+						hCount := func(v ssa.Value) bool {
+							lc, ok := v.(*ssa.Call)
+							if !ok {
+								return false
+							}
+							bi, ok := lc.Call.Value.(*ssa.Builtin)
+							return ok && bi.Name() == "len" && lc.Call.Args[0] == ssa.Value(hp)
+						}
+						rets := returnsOf(h)
+						if len(rets) == 1 && len(rets[0].Results) == 1 {
+							bodyOK(h, rets[0].Results[0], hChunk, hCount, depth+1, r)
+							r.fresh = true
+						}
+					}
+				}
+			}
+			// append style: append(AppendUint16(make(0), uint16(count)), chunk...)
+			if bi, isB := x.Call.Value.(*ssa.Builtin); isB && bi.Name() == "append" && len(x.Call.Args) == 2 && chunkIs(x.Call.Args[1]) {
+				if pc, ok := strip(x.Call.Args[0]).(*ssa.Call); ok && calleeName(pc) == "(encoding/binary.littleEndian).AppendUint16" && u16of(pc.Call.Args[len(pc.Call.Args)-1]) {
+					base := strip(pc.Call.Args[len(pc.Call.Args)-2])
+					if ms, ok := base.(*ssa.MakeSlice); ok {
+						if k0, isC := constInt(ms.Len); isC && k0 == 0 {
+							r.prefixOK, r.payOK, r.fresh = true, true, true
+						}
+					} else if k, ok := base.(*ssa.Const); ok && k.IsNil() {
+						r.prefixOK, r.payOK, r.fresh = true, true, true
+					}
+				}
+			}
+		}
+	}
+	// findSend: in f, the chunk (chunkIs) is turned into a DATA packet and written to the tunnel
+	var findSend func(f *ssa.Function, chunkIs, countIs, tunnelIs func(ssa.Value) bool, depth int, r *asmResult) bool
+	findSend = func(f *ssa.Function, chunkIs, countIs, tunnelIs func(ssa.Value) bool, depth int, r *asmResult) bool {
+		for _, ci := range callsTo(f, "(*"+protoPkg+".Tunnel).Write") {
+			tw := ci.(*ssa.Call)
+			if !tunnelIs(recvOf(tw)) {
+				continue
+			}
+			pk, ok := strip(arg(tw, 0)).(*ssa.Call)
+			if !ok {
+				continue
+			}
+			r.tw, r.where = tw, tw
+			if calleeName(pk) == protoPkg+".createPacket" {
+				t, _ := constInt(arg(pk, 0))
+				r.pktOK = t == dataT
+				bodyOK(f, arg(pk, 1), chunkIs, countIs, depth, r)
+				return true
+			}
+			// tunnel.Write(H(chunk)) with H returning createPacket(DATA, ...)
+			if h := pk.Call.StaticCallee(); h != nil && IsFirstParty(h) && h.Blocks != nil && len(h.Params) == 1 && len(pk.Call.Args) == 1 && chunkIs(pk.Call.Args[0]) {
+				hp := h.Params[0]
+				rets := returnsOf(h)
+				if len(rets) == 1 {
+					if rc, ok := strip(rets[0].Results[0]).(*ssa.Call); ok && calleeName(rc) == protoPkg+".createPacket" {
+						t, _ := constInt(arg(rc, 0))
+						r.pktOK = t == dataT
+						bodyOK(h, arg(rc, 1), func(v ssa.Value) bool { return v == ssa.Value(hp) }, func(v ssa.Value) bool {
+							lc, ok := v.(*ssa.Call)
+							if !ok {
+								return false
+							}
+							bi, ok := lc.Call.Value.(*ssa.Builtin)
+							return ok && bi.Name() == "len" && lc.Call.Args[0] == ssa.Value(hp)
+						}, depth+1, r)
+						return true
+					}
+				}
+			}
+		}
+		if depth > 2 {
+			return false
+		}
+		// a helper that is handed the chunk (and the tunnel)
+		for _, ci := range callsIn(f) {
+			call, ok := ci.(*ssa.Call)
+			if !ok {
+				continue
+			}
+			h := call.Call.StaticCallee()
+			if h == nil || !IsFirstParty(h) || h.Blocks == nil || h == f {
+				continue
+			}
+			var cp, tp *ssa.Parameter
+			for j, a := range call.Call.Args {
+				if j >= len(h.Params) {
+					break
+				}
+				if chunkIs(a) {
+					cp = h.Params[j]
+				}
+				if tunnelIs(a) {
+					tp = h.Params[j]
+				}
+			}
+			if cp == nil || tp == nil {
+				continue
+			}
+			hChunk := func(v ssa.Value) bool { return v == ssa.Value(cp) }
+			hCount := func(v ssa.Value) bool {
 				lc, ok := v.(*ssa.Call)
 				if !ok {
 					return false
 				}
 				bi, ok := lc.Call.Value.(*ssa.Builtin)
-				return ok && bi.Name() == "len" && lc.Call.Args[0] == ssa.Value(hp)
+				return ok && bi.Name() == "len" && lc.Call.Args[0] == ssa.Value(cp)
 			}
-			helperArgOK = isBufN(call.Call.Args[0])
-			pk = nil
-			for _, r := range returnsOf(h) {
-				rc, ok := strip(r.Results[0]).(*ssa.Call)
-				if !ok || pk != nil {
-					pk = nil
-					break
+			hTun := func(v ssa.Value) bool { return strip(v) == ssa.Value(tp) }
+			if findSend(h, hChunk, hCount, hTun, depth+1, r) {
+				// every path through the helper sends
+				for _, ret := range returnsOf(h) {
+					if reachFromWithoutMarkerAvoiding(h.Blocks[0], ret, func(in ssa.Instruction) bool { return in == r.where }, nil) {
+						r.pktOK = false
+					}
 				}
-				pk = rc
+				r.where = call
+				return true
 			}
 		}
+		return false
 	}
-	var prefix, payload, bytesCall, reset *ssa.Call
-	var b1 ssa.Value
-	for _, ci := range callsIn(asmFn) {
-		call, ok := ci.(*ssa.Call)
-		if !ok {
-			continue
-		}
-		switch calleeName(call) {
-		case "encoding/binary.Write":
-			prefix = call
-		case "(*bytes.Buffer).Write":
-			payload = call
-		case "(*bytes.Buffer).Bytes":
-			bytesCall = call
-		case "(*bytes.Buffer).Reset":
-			reset = call
-		}
-	}
-	if prefix == nil || payload == nil || bytesCall == nil || pk == nil {
+	var res asmResult
+	found := findSend(fn, isBufN, func(v ssa.Value) bool { return v == n }, func(v ssa.Value) bool { return strip(v) == ssa.Value(tunP) }, 0, &res)
+	if !found || res.where == nil {
 		c.Bad(rule, "forward assembly", fn.Pos(), "length prefix / payload write / Bytes / tunnel.Write not all present")
 		return
 	}
-	b1 = recvOf(payload)
-	pOK := false
-	if mi, ok := arg(prefix, 2).(*ssa.MakeInterface); ok {
-		if cv, ok := mi.X.(*ssa.Convert); ok && countIs(cv.X) {
-			if bt, ok := cv.Type().Underlying().(*types.Basic); ok && bt.Kind() == types.Uint16 {
-				pOK = strip(arg(prefix, 0)) == b1 && isLittleEndian(arg(prefix, 1))
-			}
-		}
+	var tw *ssa.Call
+	if call, ok := res.where.(*ssa.Call); ok {
+		tw = call // the instruction of forward that sends this read's packet
 	}
-	c.Check(pOK, rule, "forward prefix", prefix.Pos(), "payload-length field = uint16(n) of this iteration's Read, little-endian, into the assembly buffer", "the payload-length field is not uint16 of the count this Read returned")
-	sOK := payloadIs(arg(payload, 0)) && helperArgOK
-	c.Check(sOK, rule, "forward payload", payload.Pos(), "payload = buf[:n] with the same buffer and the same n", "the payload written is not buf[:n] for the buffer and count of this Read: bytes are dropped, duplicated or invented")
-	// e. packet
-	dataT := c.ConstInt("cmd/rdpgw/protocol", "PKT_TYPE_DATA")
-	eOK := calleeName(pk) == protoPkg+".createPacket" && strip(arg(pk, 1)) == ssa.Value(bytesCall) && recvOf(bytesCall) == b1 && recvOf(tw) == ssa.Value(tunP)
-	if eOK {
-		t, _ := constInt(arg(pk, 0))
-		eOK = t == dataT
+	if tw == nil {
+		c.Bad(rule, "forward assembly", fn.Pos(), "length prefix / payload write / Bytes / tunnel.Write not all present")
+		return
 	}
-	c.Check(eOK && dominatesInstr(prefix, payload) && dominatesInstr(payload, bytesCall), rule, "forward packet", tw.Pos(), "tunnel.Write(createPacket(PKT_TYPE_DATA, prefix+payload)) in that order", "the packet written is not createPacket(PKT_TYPE_DATA, <prefix then payload>) on this tunnel")
+	asmFn := fn
+	if res.tw != nil && res.tw.Parent() != fn {
+		asmFn = res.tw.Parent()
+	}
+	b1 := res.buffer
+	reset := res.reset
+	bytesCall := res.bytes
+	c.Check(res.prefixOK, rule, "forward prefix", tw.Pos(), "payload-length field = uint16(n) of this iteration's Read, little-endian, into the assembly buffer", "the payload-length field is not uint16 of the count this Read returned")
+	c.Check(res.payOK, rule, "forward payload", tw.Pos(), "payload = buf[:n] with the same buffer and the same n", "the payload written is not buf[:n] for the buffer and count of this Read: bytes are dropped, duplicated or invented")
+	c.Check(res.pktOK, rule, "forward packet", tw.Pos(), "tunnel.Write(createPacket(PKT_TYPE_DATA, prefix+payload)) in that order", "the packet written is not createPacket(PKT_TYPE_DATA, <prefix then payload>) on this tunnel")
 	// one packet per successful read: from the success edge, the next Read cannot be reached without the tunnel write
 	head := read.Block()
 	okOne := true
@@ -166,12 +305,10 @@ func c06Forward(c *Ctx) {
 	}
 	c.Check(okOne, rule, "forward one-packet-per-read", tw.Pos(), "every successful read is followed by its DATA packet before the next read", "after a successful read the loop can reach the next read without sending the bytes: host data is dropped")
 	// f. assembly buffer empty at the top of each iteration: fresh per iteration, or Reset on every path from the write to the next read
-	fresh := false
-	if al, ok := b1.(*ssa.Alloc); ok && (inCycle(al.Block()) || asmFn != fn && !inCycle(al.Block())) {
-		fresh = true // allocated inside the loop, or once per call of the assembling helper
-	}
+	fresh := res.fresh
+	_ = asmFn
 	resetOK := fresh
-	if !fresh && reset != nil && recvOf(reset) == b1 {
+	if !fresh && reset != nil && bytesCall != nil && recvOf(reset) == b1 && reset.Parent() == fn && tw.Parent() == fn {
 		resetOK = !reachFromWithoutMarkerAvoiding(tw.Block(), read, func(in ssa.Instruction) bool { return in == ssa.Instruction(reset) }, nil) || reset.Block() == tw.Block() && instrIndex(reset) > instrIndex(tw)
 		if reset.Block() == tw.Block() {
 			resetOK = instrIndex(reset) > instrIndex(bytesCall)
